@@ -523,7 +523,7 @@ func isInOrderFilter(pv, listExpr string) bool {
 	if !strings.Contains(s, "A") || !strings.Contains(s, "E") {
 		return false
 	}
-	return regexp.MustCompile(`^[(){}|@AE]*$`).MatchString(s)
+	return core.ProvMatch(regexp.MustCompile(`^[(){}|@AE]*$`), s)
 }
 
 // CheckRetryLists decides the retry-list idiom: a Send whose message is an
